@@ -10,7 +10,7 @@ from vlib.reach import Reach, unreached, summary
 ID = 'C06'
 LEVEL = 'fault_enumeration'
 LEVEL_TEXT = ('Fault enumeration: for every generated file, EVERY cut offset from 4 to the file length is applied and the truncated copy '
-              'is read eagerly and lazily, with an explicit next-segment offset and with the 0xFFFF... marker in the last lead-in. The '
+              'is read eagerly and lazily (a third of the files also with memmap_dir), with an explicit next-segment offset and with the 0xFFFF... marker in the last lead-in. The '
               'oracle derives from the model and the encoder layout: no exception, every channel a prefix of its complete values, at '
               'least all values of segments wholly before the cut, len(channel) == values returned, lazy == eager, and '
               'file_status.incomplete_final_segment exactly as the layout dictates. DAQmx files are cut the same way (complete rows).')
@@ -23,7 +23,7 @@ RULE = ('files of ~150-1500 bytes from vlib.model.gen_file (contiguous, interlea
 ASSUMPTIONS = ['marker variant: strings only in single-chunk last segments (as the statement restricts)',
                'expected status: explicit offsets -> incomplete iff data_start <= cut < end of a segment; marker -> iff the last '
                "segment's metadata is complete"]
-REQUIRED = ['tall_files', 'long_files', 'cuts', 'cuts_in_raw_data', 'cuts_in_metadata', 'cuts_in_lead_in', 'status_checked', 'lazy_eager_compared', 'prefix_checked',
+REQUIRED = ['memmap_reads', 'tall_files', 'long_files', 'cuts', 'cuts_in_raw_data', 'cuts_in_metadata', 'cuts_in_lead_in', 'status_checked', 'lazy_eager_compared', 'prefix_checked',
             'variant:explicit', 'variant:marker', 'cuts_checked']
 N = {'quick': 130, 'thorough': 16000}
 NDAQ = {'quick': 60, 'thorough': 6000}
@@ -48,10 +48,13 @@ def shard_setup(ctx):
                        '_calculate_chunks': getattr(ts.TdmsSegment._calculate_chunks, '__wrapped__', ts.TdmsSegment._calculate_chunks),
                        }, ignore_raise=True)
     ctx.reach.start()
+    ctx.tmp = util.TempDir('c06')
+    ctx.tmpdir = ctx.tmp.__enter__()
 
 
 def shard_teardown(ctx):
     contracts.drain(ctx)
+    ctx.tmp.__exit__()
     ctx.reach.stop()
     ctx.reach.report(ctx)
 
@@ -162,9 +165,20 @@ def run_case(case, ctx):
                 'layout': [(l['start'], l['data_start'], l['end']) for l in lay.segs], 'segments': desc[:5]}
         shape = segshape(segs[si]) if si is not None else 'none'
         obs = {}
-        for mode in ('eager', 'lazy'):
+        modes = ('eager', 'lazy', 'eager-memmap', 'lazy-memmap') if case['s'] % 3 == 0 else ('eager', 'lazy')
+        for mode in modes:
             try:
-                if mode == 'eager':
+                if mode == 'eager-memmap':
+                    tf = TdmsFile.read(io.BytesIO(blob[:cut]), raw_timestamps=True, memmap_dir=ctx.tmpdir)
+                    obs[mode] = observe(tf)
+                    status = tf.file_status.incomplete_final_segment
+                    ctx.count('memmap_reads')
+                    del tf
+                elif mode == 'lazy-memmap':
+                    with TdmsFile.open(io.BytesIO(blob[:cut]), raw_timestamps=True, memmap_dir=ctx.tmpdir) as tf:
+                        obs[mode] = observe(tf)
+                        status = tf.file_status.incomplete_final_segment
+                elif mode == 'eager':
                     tf = TdmsFile.read(io.BytesIO(blob[:cut]), raw_timestamps=True)
                     obs[mode] = observe(tf)
                     status = tf.file_status.incomplete_final_segment
@@ -201,6 +215,10 @@ def run_case(case, ctx):
                 got = obs[mode].get(p, (0, None))[0]
                 if got < k:
                     ctx.violation('%s/lost-values-of-complete-segments/%s/%s' % (mode, region, shape), dict(info, path=p, got=got, at_least=k))
+        for mode in modes[2:]:
+            if mode in obs and 'eager' in obs and obs[mode] != obs['eager']:
+                diff = [p for p in set(obs['eager']) | set(obs[mode]) if obs['eager'].get(p) != obs[mode].get(p)]
+                ctx.violation('%s-differs-from-eager/%s/%s' % (mode, region, shape), dict(info, paths=diff[:4]))
         if 'eager' in obs and 'lazy' in obs:
             ctx.count('lazy_eager_compared')
             if obs['eager'] != obs['lazy']:
